@@ -7,6 +7,7 @@
 //        (q u udot of the prescribed mobilizer after prescribe + realize(Acceleration); calcMotionErrors maxima; certificate: the same
 //         system without prescription under the ordinary forces minus the reported motion forces reproduces udot; after unlock / disable:
 //         accelerations equal those of the same State with nothing prescribed)
+//   MB <seed> <mobtype> <mkind> <euler>   Motion on a Ball / Free / Gimbal / Bushing / Ellipsoid (see runMB)
 //   LOCK <id> then op lines, END   lock state machine on a Pin (body 1) of a 2-body chain; ops:
 //        LK lev | LA lev x | UL | Q x | U x | ME b | PR t      (values x are hexadecimal or decimal doubles)
 //      after each op prints  L <level> <lockvalue or -> <q> <u> <udot prescribed or ->   with %a doubles
@@ -78,6 +79,51 @@ static void runSys(int seed, int kind, int cons) {
            s.getNQ(), tau.size());
 }
 
+// Motion on a multi-coordinate mobilizer between two Pins: mobtype 0 Ball, 1 Free, 2 Gimbal, 3 Bushing, 4 Ellipsoid;
+// mkind 0 Sinusoid@Position, 1 Sinusoid@Velocity, 2 Sinusoid@Acceleration, 3 Steady; euler = use Euler angles.
+// prints  MB seed mobtype mkind euler A w p t nq nu | q.. | qdot.. | qdotdot.. | u.. | udot.. | motion error maxima
+static void runMB(int seed, int mobtype, int mkind, int euler) {
+    Random::Uniform rnd(-1, 1); rnd.setSeed(seed);
+    auto rv = [&] { return Vec3(rnd.getValue(), rnd.getValue(), rnd.getValue()); };
+    auto rx = [&] { return Transform(Rotation(BodyRotationSequence, rnd.getValue(), XAxis, rnd.getValue(), YAxis, rnd.getValue(), ZAxis), rv()); };
+    MultibodySystem sys; SimbodyMatterSubsystem matter(sys); GeneralForceSubsystem forces(sys);
+    Force::Gravity(forces, matter, Vec3(0.2, -9.8, 0.4));
+    Body::Rigid body(MassProperties(2.0, Vec3(.1, -.2, .3), Inertia(Vec3(.1, -.2, .3), 2.0) + Inertia(1, 1.2, 1.4, 0.01, -0.02, 0.03)));
+    MobilizedBody base = MobilizedBody::Pin(matter.Ground(), rx(), body, rx());
+    MobilizedBody mob;
+    switch (mobtype) {
+    case 0: mob = MobilizedBody::Ball(base, rx(), body, rx()); break;
+    case 1: mob = MobilizedBody::Free(base, rx(), body, rx()); break;
+    case 2: mob = MobilizedBody::Gimbal(base, rx(), body, rx()); break;
+    case 3: mob = MobilizedBody::Bushing(base, rx(), body, rx()); break;
+    default: mob = MobilizedBody::Ellipsoid(base, rx(), body, rx(), Vec3(0.5, 0.7, 0.9)); break;
+    }
+    MobilizedBody tip = MobilizedBody::Pin(mob, rx(), body, rx());
+    const Real A = 0.15 + 0.45 * std::abs(rnd.getValue()), w = 0.5 + 2 * std::abs(rnd.getValue()), ph = rnd.getValue(), t = 0.1 + 3 * std::abs(rnd.getValue());
+    const Real rate = rnd.getValue();
+    if (mkind == 0) Motion::Sinusoid(mob, Motion::Position, A, w, ph);
+    if (mkind == 1) Motion::Sinusoid(mob, Motion::Velocity, A, w, ph);
+    if (mkind == 2) Motion::Sinusoid(mob, Motion::Acceleration, A, w, ph);
+    if (mkind == 3) Motion::Steady(mob, rate);
+    State s = sys.realizeTopology(); matter.setUseEulerAngles(s, euler != 0); sys.realizeModel(s);
+    for (int i = 0; i < s.getNQ(); ++i) s.updQ()[i] = 0.3 * rnd.getValue() + 0.1;
+    if (!euler && (mob.getNumQ(s) == 4 || mob.getNumQ(s) == 7)) { // a proper (unnormalised is allowed, but keep it away from zero) quaternion for the mobilizer
+        Vector qq = mob.getQAsVector(s); qq[0] = 0.9; qq[1] = 0.2; qq[2] = -0.3; qq[3] = 0.25; mob.setQFromVector(s, qq); }
+    for (int i = 0; i < s.getNU(); ++i) s.updU()[i] = rnd.getValue();
+    s.setTime(t);
+    sys.realize(s, Stage::Time); sys.prescribeQ(s); sys.realize(s, Stage::Position); sys.prescribeU(s);
+    sys.realize(s, Stage::Acceleration);
+    const int nq = mob.getNumQ(s), nu = mob.getNumU(s);
+    printf("MB %d %d %d %d %a %a %a %a %d %d |", seed, mobtype, mkind, euler, mkind == 3 ? rate : A, w, ph, t, nq, nu);
+    for (int i = 0; i < nq; ++i) printf(" %a", mob.getOneQ(s, i)); printf(" |");
+    for (int i = 0; i < nq; ++i) printf(" %a", mob.getOneQDot(s, i)); printf(" |");
+    for (int i = 0; i < nq; ++i) printf(" %a", mob.getOneQDotDot(s, i)); printf(" |");
+    for (int i = 0; i < nu; ++i) printf(" %a", mob.getOneU(s, i)); printf(" |");
+    for (int i = 0; i < nu; ++i) printf(" %a", mob.getOneUDot(s, i)); printf(" |");
+    printf(" %.3g %.3g %.3g\n", maxabs(matter.calcMotionErrors(s, Stage::Position)), maxabs(matter.calcMotionErrors(s, Stage::Velocity)),
+           maxabs(matter.calcMotionErrors(s, Stage::Acceleration)));
+}
+
 static double num(const std::string& x) { return std::strtod(x.c_str(), nullptr); }
 
 int main() {
@@ -86,6 +132,8 @@ int main() {
         std::istringstream in(line); std::string op; in >> op;
         if (op == "SYS") { int seed, kind, cons; in >> seed >> kind >> cons;
             try { runSys(seed, kind, cons); } catch (const std::exception& e) { std::string m = e.what(); for (char& c : m) if (c == '\n') c = ' '; printf("PMTHROW %d %d %s\n", seed, kind, m.substr(0, 200).c_str()); } }
+        else if (op == "MB") { int seed, mt, mk, eu; in >> seed >> mt >> mk >> eu;
+            try { runMB(seed, mt, mk, eu); } catch (const std::exception& e) { std::string m = e.what(); for (char& c : m) if (c == '\n') c = ' '; printf("MBTHROW %d %d %d %d %s\n", seed, mt, mk, eu, m.substr(0, 200).c_str()); } }
         else if (op == "LOCK") {
             std::string id; in >> id; printf("LOCK %s\n", id.c_str());
             MultibodySystem sys; SimbodyMatterSubsystem matter(sys); GeneralForceSubsystem forces(sys);
